@@ -62,23 +62,7 @@ def run(ctx, chk):
             else:
                 chk.ok("C14.R1", f"{label}:{name}", f"'{desc}' -> error!, nothing emitted")
 
-    def presence(c, mapname):
-        """what a path condition says about a key being in the map: True (present), False (absent), None (nothing).
-        Recognised tests: `map.get(k)` matched against Some/None (match, if let, is_some/is_none) and contains_key"""
-        desc, truth = c[0], bool(c[1])
-        neg = desc.lstrip().startswith("!")
-        if f"{mapname}.contains_key" in desc:
-            return truth != neg
-        if f"{mapname}.get" in desc:
-            if "matches Some" in desc or ".is_some()" in desc:
-                return truth != neg
-            if "matches None" in desc or ".is_none()" in desc:
-                return not (truth != neg)
-            if "Some" in desc:
-                return truth
-            if "None" in desc:
-                return not truth
-        return None
+    from asm import key_presence as presence
 
     def label_type(c):
         """the label type a path condition establishes ('CODE' / 'DATA' / None): a match arm or `if let` on the
